@@ -82,6 +82,8 @@ func TestGovcHarness_Determinism(t *testing.T) {
 	w("go.mod", "module example.com/org/m\n\ngo 1.21\n")
 	w("a/a.go", "package a\n\ntype IdA int64\n\ntype KA int\n\nconst (\n\tKA0 KA = iota\n\tKA1\n)\n\ntype SA struct{ X int; K KA }\n")
 	w("b/b.go", "package b\n\ntype IdB int64\n\ntype KB string\n\nconst (\n\tKB0 KB = \"x\"\n\tKB1 KB = \"y\"\n)\n\ntype SB struct{ Y string; K KB }\n")
+	w("a/kinds/k.go", "package kinds\n\ntype Kind int\n\nconst (\n\tKa0 Kind = iota\n\tKa1\n)\n")
+	w("b/kinds/k.go", "package kinds\n\ntype Kind string\n\nconst (\n\tKb0 Kind = \"u\"\n\tKb1 Kind = \"v\"\n)\n")
 	w("c/c.go", "package c\n\nimport \"example.com/org/m/a\"\n\ntype SC struct{ A a.SA; L []a.KA }\n")
 	multi := w("root.go", `package m
 
@@ -91,6 +93,8 @@ import (
 	"example.com/org/m/a"
 	"example.com/org/m/b"
 	"example.com/org/m/c"
+	ak "example.com/org/m/a/kinds"
+	bk "example.com/org/m/b/kinds"
 )
 
 type Shape interface{ isShape() }
@@ -117,6 +121,8 @@ type Table1 struct {
 	U    Shape
 	V    Animal
 	L    []Both
+	AK   ak.Kind
+	BK   bk.Kind
 }
 
 type Table2 struct {
